@@ -121,6 +121,12 @@ def scenarios():
             [_call(sv, 'json/athlete.json', D4), _call(sv, 'json/event.json', D4)])
         add('S5 valid_against_schema||valid_against_schema distinct keys, cache at %d' % n, [lambda n=n: fill_doc_cache(n)],
             [_call(va, 'sample-jsons/athlete.json', 'json/athlete.json'), _call(va, 'sample-jsons/event.json', 'json/event.json')], bound=(1, 2))
+    # a cache hit racing with an insertion that evicts exactly that (most recent) entry
+    add('S5 schema_valid hit||evicting insert, cache at 20', [lambda: fill_schema_cache(19), _call(sv, 'json/athlete.json', D4)],
+        [_call(sv, 'json/athlete.json', D4), _call(sv, 'json/event.json', D4)])
+    add('S5 valid_against_schema hit||evicting insert, cache at 20',
+        [lambda: fill_doc_cache(19), _call(va, 'sample-jsons/athlete.json', 'json/athlete.json')],
+        [_call(va, 'sample-jsons/athlete.json', 'json/athlete.json'), _call(va, 'sample-jsons/event.json', 'json/event.json')], bound=(1, 2))
     add('S5 schema_valid||schema_valid equal keys, cache at 20', [lambda: fill_schema_cache(20)],
         [_call(sv, 'json/athlete.json', D4), _call(sv, 'json/athlete.json', D4)])
     add('S5 schema_valid x3, cache at 19', [lambda: fill_schema_cache(19)],
